@@ -477,7 +477,7 @@ gen_hostile(int thorough)
 	for (i = 0; i < nwf; i++) {
 		struct hcase b = cases[i];	/* copy: the array may move */
 		if (b.resplen > 600) continue;
-		if (!thorough && (i % 3) != 0) continue;
+		if (!thorough && b.resplen > 200 && (i % 2) != 0) continue;
 		/* truncations also for the longer responses (interim responses with header lines followed by a cut-off final block) */
 		for (q = 0; q <= b.resplen; q++) {
 			if (b.resplen > 200 && !thorough) {
@@ -580,6 +580,9 @@ main(int argc, char ** argv)
 	sa0.ai_family = AF_INET; sa0.ai_socktype = SOCK_STREAM; sa0.name = (struct sockaddr *)&sin0; sa0.namelen = sizeof(sin0);
 	sas[0] = &sa0; sas[1] = NULL;
 	if (prop == 9) gen_wellformed(vf_tier); else gen_hostile(vf_tier);
+	if (fork_mode) {	/* the forked pass covers the base responses and the structured attacks only: drop the rest before any child is forked */
+		size_t k = 0; for (q = 0; q < ncases; q++) if (!cases[q].minimal) cases[k++] = cases[q]; ncases = k;
+	}
 	vf_info("cases", "%zu server byte streams (%s)", ncases, prop == 9 ? "well-formed, rendered from records" : "hostile: mutations, truncations, structured attacks");
 	memset(&cfgm, 0, sizeof(cfgm));
 	cfgm.name = fork_mode ? "http-forked" : force_single ? "http-single-bytes" : "http"; cfgm.body = body; cfgm.teardown = teardown; cfgm.dev_bound = force_single ? 0 : dev; cfgm.table_bits = vf_tier ? 27 : 25;
